@@ -1,4 +1,5 @@
 import Postcard.Props.C04
+import Postcard.Props.C04Scratch
 -- property theorems of C04: every one must depend only on propext / Classical.choice / Quot.sound
 #print axioms Postcard.dec_total
 #print axioms Postcard.dec_no_foreign_error
@@ -20,3 +21,7 @@ import Postcard.Props.C04
 #print axioms Postcard.pairs_le_bytes
 #print axioms Postcard.str_payload_le
 #print axioms Postcard.bytes_payload_le
+#print axioms Postcard.SBuf.inv_run
+#print axioms Postcard.scratch_history_safe
+#print axioms Postcard.take_refused_unchanged
+#print axioms Postcard.take_read_failed_keeps_slot
